@@ -3,7 +3,7 @@ against the REAL runtime classes (type-stripped codegen-v2.ts) + property oracle
 import vcheck
 
 PID = "C03"
-MODULES = ["BeffVerif.Props.C03", "BeffVerif.Props.C03NoThrow", "BeffVerif.Props.C03Report", "BeffVerif.Props.C03Parse", "BeffVerif.Props.C03Declared", "BeffVerif.Props.C03Idem"]
+MODULES = ["BeffVerif.Props.C03", "BeffVerif.Props.C03NoThrow", "BeffVerif.Props.C03Report", "BeffVerif.Props.C03Parse", "BeffVerif.Props.C03Declared", "BeffVerif.Props.C03Idem", "BeffVerif.Props.C03Order"]
 AUDIT = "BeffVerif/Audit/C03.lean"
 TAGS = ("c03.",)
 HYP = {"NoProtoNamedKeys": "D28", "IntersectionsOfObjects": "D29", "NoSplitIntersection": "D32", "NoAccessorNamedProps": "D33", "NoLaxObjectBesideBuiltin": "D33b"}
